@@ -145,6 +145,9 @@ func VerifC14MirrorSchema() {
 	vObserve("edit", e)
 	vObserve("focus", focus)
 	vCover("built")
+	if vKnown("C14-D21", t == 2 && e == 10) {
+		return
+	}
 	ab, _ := Compare(vSpecBoth(rootA, defsA, 0), vSpecBoth(rootB, defsB, 0))
 	ba, _ := Compare(vSpecBoth(rootB, defsB, 0), vSpecBoth(rootA, defsA, 0))
 	vCheckMirror(ab, ba)
@@ -267,7 +270,11 @@ func VerifC14MirrorHeader() {
 			h.Type = "integer"
 			mx := vF64(tag + ".max")
 			h.Maximum = vMaybeNil(vBool(tag+".noMax"), &mx)
-			r.Headers = map[string]spec.Header{"X-Rate": h}
+			name := []string{"X-Rate", "x-rate"}[vChoice(tag+".headerName", 2)]
+			r.Headers = map[string]spec.Header{name: h}
+			if vBool2(tag + ".secondHeader") {
+				r.Headers["X-Other"] = h
+			}
 		}
 		op.Responses.StatusCodeResponses = map[int]spec.Response{200: r}
 		return vSpecWithOp("/a", op)
